@@ -3,6 +3,7 @@ mod driver;
 mod fam_builder;
 mod fam_plushy;
 mod fam_push;
+#[cfg(feature = "dynfam")]
 mod fam_dyn;
 mod fam_ops;
 mod fam_res;
@@ -70,6 +71,7 @@ fn main() {
         "mut-selftest" => fam_mut::selftest(&cfg),
         "ops" => fam_ops::run(&cfg),
         "res" => fam_res::run(&cfg),
+        #[cfg(feature = "dynfam")]
         "dyn" => fam_dyn::run(&cfg),
         "gen" => fam_gen::run(&cfg),
         "generation" => fam_generation::run(&cfg),
